@@ -37,7 +37,7 @@ inductive Dir where
 inductive Msg where
   | data (dest org tag : Nat)
   | create (ident pk dh : Nat)
-  | created (ident key authPk dhRef : Nat)
+  | created (ident key authPk dhRef : Nat)     -- key = 0: a malformed DH half (wrong length)
   | extend (ident pk dh : Nat)
   | extended (ident key authPk dhRef : Nat)
   | ping (ident : Nat)
@@ -259,7 +259,10 @@ def oursCreated (n : Node) (cid : Nat) (circ : Circ) (key authPk dhRef : Nat) (c
   match circ.unv with
   | none => (n, [])
   | some h =>
-    if authPk = h.peer ∧ dhRef = h.key then
+    if key = 0 then
+      -- a DH half that is not a valid key: ValueError -> remove_circuit("error while verifying shared secret")
+      ({ n with circuits := del n.circuits cid }, [])
+    else if authPk = h.peer ∧ dhRef = h.key then
       let circ1 : Circ := { circ with hops := circ.hops ++ [⟨h.peer, h.addr, key⟩], unv := none }
       if circ1.hops.length < circ1.goal then
         match ch.ext with
